@@ -44,6 +44,10 @@ LEVEL_NOTE = (
     'secant iteration from the guess does not reach the root (known finding D2002).')
 DESIGN_REF = '§4 C20'
 
+# theorems of the integrated pipeline model (Props/X01.lean) that carry this property's theorems to formula TEXTS in a
+# compiled workbook; re-built and audited with this check (harness/common.prepare: soft obligations)
+TRANSPORT = ('XlVerif.Props.X01', ['X01_NPV'])
+
 TRUSTED = [
     'Lean 4.33 kernel; axioms propext, Classical.choice, Quot.sound only',
     'hand-written model lean/XlVerif/Model/C20.lean of xlfunctions/financial.py and of the numpy_financial '
